@@ -21,7 +21,7 @@ RULE = ("one run = bring-up, one request of one of the 13 command variants (10 i
         "for j attempts, open fails for j attempts}; enumerated: every (variant, exchange index, fault "
         "kind) for the tier's policy seeds; non-trivial = the fault fired; distinct = tuple (variant, "
         "step kind, fault kind, reconnection script, #follow-ups)")
-TIERS = {"quick": {"runs": 6000, "wall": 120}, "thorough": {"runs": 200000, "wall": 1800}}
+TIERS = {"quick": {"runs": 60000, "wall": 240}, "thorough": {"runs": 1500000, "wall": 3000}}
 EXHAUSTIVE = {"quick": False, "thorough": False}
 COMPONENTS = {
     "real": ["comm.server._RequestHandler", "ledger.protocol (ensure_connection, initialize_device, "
